@@ -256,40 +256,73 @@ Fixpoint jrender (d : nat) (r : jrec) : str :=
   end.
 
 Definition is_digit (c : ascii) : bool := let n := nat_of_ascii c in Nat.leb 48 n && Nat.leb n 57.
-Fixpoint read_num (s : str) (acc : nat) : nat * str :=
-  match s with
-  | c :: r => if is_digit c then read_num r (acc * 10 + (nat_of_ascii c - 48)) else (acc, s)
-  | [] => (acc, [])
+Definition digit_val (c : ascii) : nat := nat_of_ascii c - 48.
+Definition is_ws (c : ascii) : bool := let n := nat_of_ascii c in Nat.eqb n 32 || Nat.eqb n 10 || Nat.eqb n 9 || Nat.eqb n 13.
+
+(* the lexer: a state machine run over the bytes (a fold, so that it composes over concatenation) *)
+Inductive lmode :=
+| MNorm                                  (* between tokens *)
+| MStr (acc : str)                       (* inside a string literal; acc = decoded characters so far, reversed *)
+| MEsc (acc : str)                       (* after a back-slash *)
+| MU (acc : str) (k v : nat)             (* inside \uXXXX: k hex digits read, value v *)
+| MNum (neg : bool) (v : nat)            (* inside a number *)
+| MErr.
+Definition lstate := (list jtok * lmode)%type.      (* tokens so far, reversed *)
+
+Definition step_norm (toks : list jtok) (c : ascii) : lstate :=
+  if is_ws c then (toks, MNorm)
+  else if Ascii.eqb c "{"%char then (TLBrace :: toks, MNorm)
+  else if Ascii.eqb c "}"%char then (TRBrace :: toks, MNorm)
+  else if Ascii.eqb c ":"%char then (TColon :: toks, MNorm)
+  else if Ascii.eqb c ","%char then (TComma :: toks, MNorm)
+  else if Ascii.eqb c dq then (toks, MStr [])
+  else if Ascii.eqb c "-"%char then (toks, MNum true 0)
+  else if is_digit c then (toks, MNum false (digit_val c))
+  else (toks, MErr).
+
+Definition lstep (st : lstate) (c : ascii) : lstate :=
+  let (toks, m) := st in
+  match m with
+  | MErr => st
+  | MNorm => step_norm toks c
+  | MStr acc =>
+    if Ascii.eqb c dq then (TStr (rev acc) :: toks, MNorm)
+    else if Ascii.eqb c bs then (toks, MEsc acc)
+    else (toks, MStr (c :: acc))
+  | MEsc acc =>
+    if Ascii.eqb c dq then (toks, MStr (dq :: acc))
+    else if Ascii.eqb c bs then (toks, MStr (bs :: acc))
+    else if Ascii.eqb c "/"%char then (toks, MStr ("/"%char :: acc))
+    else if Ascii.eqb c "n"%char then (toks, MStr (ascii_of_nat 10 :: acc))
+    else if Ascii.eqb c "r"%char then (toks, MStr (ascii_of_nat 13 :: acc))
+    else if Ascii.eqb c "t"%char then (toks, MStr (ascii_of_nat 9 :: acc))
+    else if Ascii.eqb c "b"%char then (toks, MStr (ascii_of_nat 8 :: acc))
+    else if Ascii.eqb c "f"%char then (toks, MStr (ascii_of_nat 12 :: acc))
+    else if Ascii.eqb c "u"%char then (toks, MU acc 0 0)
+    else (toks, MErr)
+  | MU acc k v =>
+    match unhex c with
+    | Some h =>
+      let v' := v * 16 + h in
+      if Nat.eqb k 3 then (if Nat.ltb v' 128 then (toks, MStr (ascii_of_nat v' :: acc)) else (toks, MErr))
+      else (toks, MU acc (S k) v')
+    | None => (toks, MErr)
+    end
+  | MNum neg v =>
+    if is_digit c then (toks, MNum neg (v * 10 + digit_val c)) else step_norm (TNum neg v :: toks) c
   end.
 
-Fixpoint lex (fuel : nat) (s : str) : option (list jtok) :=
-  match fuel with
-  | O => None
-  | S f =>
-    match s with
-    | [] => Some []
-    | c :: r =>
-      let n := nat_of_ascii c in
-      if Nat.eqb n 32 || Nat.eqb n 10 || Nat.eqb n 9 || Nat.eqb n 13 then lex f r
-      else if Ascii.eqb c "{"%char then match lex f r with Some l => Some (TLBrace :: l) | None => None end
-      else if Ascii.eqb c "}"%char then match lex f r with Some l => Some (TRBrace :: l) | None => None end
-      else if Ascii.eqb c ":"%char then match lex f r with Some l => Some (TColon :: l) | None => None end
-      else if Ascii.eqb c ","%char then match lex f r with Some l => Some (TComma :: l) | None => None end
-      else if Ascii.eqb c dq then
-        match unescape (S (length r)) r with
-        | Some (str_, rest) => match lex f rest with Some l => Some (TStr str_ :: l) | None => None end
-        | None => None
-        end
-      else if Ascii.eqb c "-"%char then
-        let (v, rest) := read_num r 0 in match lex f rest with Some l => Some (TNum true v :: l) | None => None end
-      else if is_digit c then
-        let (v, rest) := read_num s 0 in match lex f rest with Some l => Some (TNum false v :: l) | None => None end
-      else None
-    end
+Definition lrun (st : lstate) (s : str) : lstate := fold_left lstep s st.
+
+Definition lex (s : str) : option (list jtok) :=
+  match lrun ([], MNorm) s with
+  | (toks, MNorm) => Some (rev toks)
+  | (toks, MNum neg v) => Some (rev (TNum neg v :: toks))
+  | _ => None
   end.
 
 Definition decode (s : str) : option jrec :=
-  match lex (S (length s)) s with
+  match lex s with
   | Some ts => match prec (S (length ts)) ts with Some (r, []) => Some r | _ => None end
   | None => None
   end.
